@@ -432,7 +432,8 @@ def main(argv=None):
             evidence["coverage"]["harness_errors"] = len(harness)
         write_json(os.path.join(OUT, "evidence", f"{pid}.json"), evidence)
 
-        for k, n in sorted(total["known_hits"].items()):
+        for k in sorted(supp):
+            n = total["known_hits"].get(k, 0)
             print(f"KNOWN-FINDING: property={pid} {supp[k]} [{n} observation(s) this run]")
         print(f"{pid} tier={a.tier} seed={seed} evaluations={total['evaluations']} "
               f"distinct_nontrivial={len(total['nontrivial'])} wall={wall:.1f}s "
